@@ -138,6 +138,38 @@ def run(ctx):
                 ctx.disagree("series:taylor-break-on-last-term-only", f"distance {dist:.3e} > accuracy {accuracy:g}; broke at order {k} with ||Ht|| = {x:.2f}", desc)
             else:
                 ctx.disagree("series:chebyshev-break-on-last-term-only", f"distance {dist:.3e} > accuracy {accuracy:g}; broke at order {k}", desc)
+    # ---- the same Hamiltonian object used for successive propagations over nearly equal times (an adaptive step,
+    #      t then t (1 + 1e-6)): every call is exp(-i t_k H) for its own t_k ------------------------------------------
+    for case in range(6 if quick else 40):
+        norb = rng.choice([2, 3])
+        made = make_case(ctx, rng, "taylor-dense", norb)
+        if made is None:
+            continue
+        ham, terms, e0, wk = made[:4]
+        w = C01.make_wfn(ctx, "single", norb, rng)
+        w.normalize()
+        dets = U.wfn_dets(w)
+        if len(dets) > 40 or len(dets) < 2:
+            continue
+        H = hmatrix(d, norb, dets, terms, e0)
+        psi = vec_of(w, dets)
+        t0 = rng.choice([0.05, 0.3, 0.8])
+        times = [t0, t0 * (1 + 1e-6), t0 * (1 - 3e-6), t0 + 1e-8, 2 * t0]
+        for k_, tk in enumerate(times):
+            api = "taylor" if k_ % 2 == 0 or k_ == 1 else "time_evolve"
+            try:
+                out = w.apply_generated_unitary(tk, "taylor", ham, accuracy=1e-13, expansion=80) if api == "taylor" else w.time_evolve(tk, ham)
+            except Exception as exc:
+                ctx.count(f"successive-raises:{type(exc).__name__}")
+                break
+            dist = float(numpy.abs(vec_of(out, dets) - expm(-1j * tk * H) @ psi).max())
+            ctx.case(("successive-times", case, k_))
+            ctx.count("successive-times")
+            if dist > 1e-10:
+                ctx.disagree("series:successive-times-on-one-hamiltonian", f"call {k_ + 1} ({api}) with t = {tk!r} on the same Hamiltonian "
+                             f"object: distance {dist:.3e} to exp(-i t H) psi (earlier times {times[:k_]})",
+                             {"norb": norb, "times": times, "call": k_, "case": case})
+                break
     # ---- exact routes: unitarity for long times and large coefficients ---------------------------
     for case in range(36 if quick else 600):
         route = rng.choice(["diagonal", "quadratic", "quadratic-sso", "quadratic-sso", "quadratic-sb", "quadratic-gso", "diagcoulomb", "individual",
